@@ -21,6 +21,15 @@ from .c03 import _loads, check_indices
 LEVEL = "model_checking"
 
 
+def frozen_only(world):
+    """definitions offered ONLY to a frozen manager (where the model needs no semantics for them: they must be rejected before
+    anything happens): an operand that does not exist (evaluating it raises KeyError) and a call whose evaluation writes to the data"""
+    L, X = world["leaves"][0], world["leaves"][1]
+    miss = ("bin", "add", ("loc", mgr.P("zz")), ("lit", 1))
+    touch = ("call", "touch", (("loc", X),), ())
+    return [("def", L, miss), ("def", L, touch), ("iop", L, "add", ("loc", mgr.P("zz"))), ("iop", X, "mul", touch)]
+
+
 def alphabet(world, full):
     loads = _loads(world)
     copyfrom = [("copyfrom", op[1], op[2]) for op in loads[:6]]
@@ -29,7 +38,7 @@ def alphabet(world, full):
         "iops": (("add", ("lit", 1)), ("mul", ("src",))) if full else (("add", ("lit", 1)),),
         "unreg": True,
         "funs": tuple(world["funs"]), "knobs": tuple(world["knobs"]),
-        "extra": [("refresh",), ("cleanup",), ("verify",), ("freeze",), ("unfreeze",)] + loads[:10] + copyfrom,
+        "extra": [("refresh",), ("cleanup",), ("verify",), ("freeze",), ("unfreeze",)] + loads[:10] + copyfrom + frozen_only(world),
     }
     return cfg
 
@@ -43,6 +52,7 @@ class System(ManagerSystem):
         self.free = free
         self.i_freeze = self.universe.index(("freeze",))
         self.i_unfreeze = self.universe.index(("unfreeze",))
+        self.i_frozen_only = {self.universe.index(o) for o in frozen_only(world) if o in self.universe}
 
     def phase(self, hist):
         if self.i_freeze not in hist:
@@ -59,6 +69,8 @@ class System(ManagerSystem):
 
     def enabled_ops(self, hist, ms):
         base = mgr.enabled(ms, self.universe, False)
+        if not ms.frozen:
+            base = [i for i in base if i not in self.i_frozen_only]
         if self.free:
             # freeze_tree / unfreeze_tree are ordinary operations: any number of freeze periods, redundant and unbalanced calls
             return base
@@ -124,7 +136,7 @@ class System(ManagerSystem):
 def tiny_alphabet(world):
     leaves = world["leaves"][:3]
     return {"leaves": leaves, "sources": leaves, "values": (3, 5), "templates": ("mul2",), "unreg": False,
-            "extra": [("freeze",), ("unfreeze",), ("refresh",)]}
+            "extra": [("freeze",), ("unfreeze",), ("refresh",)] + frozen_only(world)[:2]}
 
 
 def plan(tier, seed):
@@ -135,9 +147,11 @@ def plan(tier, seed):
                      "nproc": 4 if tier == "quick" else 8, "timeout": 3000,
                      "args": {"world": wname, "free": True, "depth": depth, "time_cap": 1500}})
     if tier == "quick":
-        runs = [("W-nest-4", False, 1, 2, 1), ("W-flat", True, 1, 1, 1), ("W-nest", True, 0, 2, 0), ("W-nest-4", False, 2, 1, 0)]
+        runs = [("W-nest-4", False, 1, 2, 1), ("W-flat", True, 1, 1, 1), ("W-nest", True, 0, 2, 0), ("W-nest-4", False, 2, 1, 0),
+                ("W-knobs", False, 1, 2, 0), ("W-flat-refs", False, 1, 2, 0)]
     else:
-        runs = [("W-nest-4", False, 2, 2, 1), ("W-flat", True, 2, 2, 1), ("W-nest", True, 1, 2, 1), ("W-mix", True, 1, 2, 0)]
+        runs = [("W-nest-4", False, 2, 2, 1), ("W-flat", True, 2, 2, 1), ("W-nest", True, 1, 2, 1), ("W-mix", True, 1, 2, 0),
+                ("W-knobs", True, 2, 2, 1), ("W-flat-refs", True, 2, 2, 0)]
     for hs in seeds:
         for wname, full, H1, K, H2 in runs:
             jobs.append({"name": f"bfs:{wname}:{'full' if full else 'reduced'}:h{H1}k{K}h{H2}:seed{hs}",
